@@ -375,6 +375,18 @@ func (e *Engine) prelude() string {
 	sb.WriteString("(set-option :produce-models true)\n(set-logic ALL)\n")
 	sb.WriteString("(define-fun tdiv ((a Int) (b Int)) Int (ite (>= a 0) (ite (> b 0) (div a b) (- (div a (- b)))) (ite (> b 0) (- (div (- a) b)) (div (- a) (- b)))))\n")
 	sb.WriteString("(define-fun tmod ((a Int) (b Int)) Int (- a (* b (tdiv a b))))\n")
+	for _, bits := range []int{8, 16, 32, 64} {
+		sb.WriteString(fmt.Sprintf("(define-fun wrapU%d ((x Int)) Int (ite (and (<= 0 x) (< x %s)) x (mod x %s)))\n", bits, pow2(bits), pow2(bits)))
+		sb.WriteString(fmt.Sprintf("(define-fun wrapS%d ((x Int)) Int (ite (and (<= (- %s) x) (< x %s)) x (- (mod (+ x %s) %s) %s)))\n", bits, pow2(bits-1), pow2(bits-1), pow2(bits-1), pow2(bits), pow2(bits-1)))
+	}
+	// imul: product of two symbolic integers (kept uninterpreted; only these facts are used)
+	sb.WriteString("(declare-fun imul (Int Int) Int)\n")
+	sb.WriteString("(assert (forall ((a Int) (b Int)) (! (and (= (imul a b) (imul b a)) (=> (or (= a 0) (= b 0)) (= (imul a b) 0)) (=> (= a 1) (= (imul a b) b)) (=> (and (>= a 0) (>= b 0)) (>= (imul a b) 0)) (=> (and (>= a 1) (>= b 0)) (>= (imul a b) b)) (=> (and (>= a 0) (>= b 1)) (>= (imul a b) a)) (=> (and (<= 0 a) (< a 1099511627776) (<= 0 b) (< b 1048576)) (< (imul a b) 1152921504606846976))) :pattern ((imul a b)))))\n")
+	sb.WriteString("(assert (forall ((a Int) (b Int)) (! (= (imul (+ a 1) b) (+ (imul a b) b)) :pattern ((imul (+ a 1) b)))))\n")
+	sb.WriteString("(assert (forall ((a Int) (b Int)) (! (= (imul (- a 1) b) (- (imul a b) b)) :pattern ((imul (- a 1) b)))))\n")
+	// sdiv/smod: Go quotient and remainder for a symbolic divisor (non-negative dividend, positive divisor)
+	sb.WriteString("(declare-fun sdiv (Int Int) Int)\n(declare-fun smod (Int Int) Int)\n")
+	sb.WriteString("(assert (forall ((a Int) (b Int)) (! (=> (and (>= a 0) (> b 0)) (and (= a (+ (imul (sdiv a b) b) (smod a b))) (<= 0 (smod a b)) (< (smod a b) b) (<= 0 (sdiv a b)) (<= (sdiv a b) a))) :pattern ((sdiv a b)) :pattern ((smod a b)))))\n")
 	// root(r): the allocation a (possibly interior) address belongs to; plain references are positive, interior addresses negative
 	sb.WriteString("(declare-fun rootneg (Int) Int)\n(define-fun root ((r Int)) Int (ite (> r 0) r (rootneg r)))\n")
 	sb.WriteString("(define-fun rd_be32 ((a (Array Int Int)) (o Int)) Int (+ (* 16777216 (select a o)) (* 65536 (select a (+ o 1))) (* 256 (select a (+ o 2))) (select a (+ o 3))))\n")
